@@ -8,7 +8,7 @@ use crate::framework::{bump, guarded, Counters, Violation};
 use crate::rng::{self, Fp, SimRng};
 use crate::simio;
 use mahf::conditions::common::DeltaEqChecker;
-use mahf::conditions::{ChangeOf, EveryN};
+use mahf::conditions::{ChangeOf, EveryN, LessThanN};
 use mahf::identifier;
 use mahf::lens::common::{BestObjectiveValueLens, BestSolutionLens, PopulationSizeLens};
 use mahf::logging::Log;
@@ -125,6 +125,19 @@ where
             return report;
         }
     };
+    let config = if case.nest > 0 {
+        // restart loop { scope { [scope {] template [}] } ; evaluate ; update_best_individual }
+        let mut inner = config.into_inner();
+        for _ in 1..case.nest {
+            let body = inner;
+            inner = Configuration::builder().scope_(move |b| b.do_(body)).build_component();
+        }
+        Configuration::builder()
+            .while_(LessThanN::iterations(NEST_RESTARTS), move |b| b.scope_(move |b| b.do_(inner)).evaluate().update_best_individual())
+            .build()
+    } else {
+        config
+    };
     let config = if case.clone_config { config.clone() } else { config };
     problem.instr().yield_in_objective.store(par, Ordering::Relaxed);
     rng::take_words_drawn();
@@ -206,14 +219,26 @@ where
                 bump(&mut d.counters, if case.fault == TFault::NoEvaluator { "fault:no-evaluator" } else { "fault:wrong-evaluator-id" }, 1);
                 if !matches!(report.result, RunResult::Err(_)) {
                     d.violate("C06", "missing-evaluator-not-reported", format!("({tname}) no evaluator under the requested identifier, but the run returned {:?}", report.result));
-                } else if report.calls != 0 || d.step_index != 0 {
+                } else if case.nest == 0 && (report.calls != 0 || d.step_index != 0) {
                     d.violate("C06", "missing-evaluator-reported-late", format!("({tname}) no evaluator under the requested identifier: the run failed only after {} steps and {} objective calls", d.step_index, report.calls));
                 }
             }
             _ => {}
         }
         let evals_at_end = evals;
-        if !injected_fault && report.result == RunResult::Ok {
+        if case.nest > 0 && !injected_fault && report.result == RunResult::Ok {
+            // counters and memories of the nested heuristic ended with its scope; what is left at
+            // the outer level is one population per restart
+            bump(&mut d.counters, "probe:template run as a nested heuristic inside scopes", 1);
+            if case.nest >= 2 {
+                bump(&mut d.counters, "probe:template nested two scopes deep", 1);
+            }
+            let h = state.try_borrow::<Populations<P>>().map(|p| p.len()).unwrap_or(0);
+            if h != NEST_RESTARTS as usize {
+                d.violate("C16", format!("stack-height-at-end template={tname}"), format!("{tname} (nested, {NEST_RESTARTS} restarts): {h} populations on the stack at the end of the run"));
+            }
+        }
+        if case.nest == 0 && !injected_fault && report.result == RunResult::Ok {
             if let Some(e) = evals {
                 if e as usize != report.calls {
                     d.violate("C06", format!("run-end-evaluations-vs-calls template={tname}"), format!("{tname}: the run reports {e} evaluations, the objective function was called {} times", report.calls));
